@@ -4,12 +4,15 @@ package main
 // the same client history is served twice and both transcripts are recorded in one "pair" line.
 
 import (
+	"bytes"
+	"context"
 	"encoding/json"
 	"fmt"
 	"hash/fnv"
 	"math/rand"
 	"os"
 
+	"git.defalsify.org/vise.git/engine"
 	"git.defalsify.org/vise.git/persist"
 	"git.defalsify.org/vise.git/state"
 	"git.defalsify.org/vise.git/vm"
@@ -35,6 +38,7 @@ type pairEvent struct {
 	ModeB   string   `json:"modeb"`
 	Partner string   `json:"partner"` // reuse pairs: the session that shared the persister
 	Flush   bool     `json:"flush"`
+	Pseed   string   `json:"pseed"` // kept-engine pairs: seed of the external-result schedule (for replay)
 	After   string   `json:"after"` // kept-persister pairs: class (ok | bad | long) of the partner's request that directly preceded this session's first request
 }
 
@@ -275,6 +279,15 @@ func cmdVisePairs(args []string) error {
 			}
 			out.put(pairEvent{Ev: "pair", Kind: "insert", Sid: sid, Store: st, Inputs: encAll(inputs), Extra: encAll(with), A: ref, B: c, ModeA: m, ModeB: m})
 			npairs++
+			// C17 with a kept ENGINE: one engine object with a persister serves the whole history with its refused inputs (what a
+			// caller of engine.Loop or a connection-oriented server has); reference: the long-lived transcript without them
+			if si%3 == 0 {
+				s3, cleanup3 := newStoreC(st, sid+"k")
+				k := serveKept(p, sid+".K", s3, with, pseed, stats, null)
+				cleanup3()
+				out.put(pairEvent{Ev: "pair", Kind: "insert", Sid: sid, Store: st, Inputs: encAll(inputs), Extra: encAll(with), A: a, B: k, ModeA: "L", ModeB: "K", Pseed: fmt.Sprint(pseed)})
+				npairs++
+			}
 			// C17 with a kept persister: the two histories WITH their refused inputs, alternating through one flushing Persister -
 			// a refused request of one session is followed directly by a request of the other (also its very first one)
 			if !keptInsert {
@@ -346,6 +359,113 @@ func splitComma(s string) []string {
 }
 
 func init() { register("vise-pairs", cmdVisePairs) }
+
+// serveKept serves a history on ONE engine object that has a persister (no Finish between requests, one at the end).
+func serveKept(p *Program, sid string, store dbLike, inputs []string, pseed int64, stats *viseStats, null *ndw) []obsRec {
+	ctx := context.Background()
+	rec := &sessRec{prog: p, sid: sid, out: null, stats: stats}
+	acc, call := 0, 0
+	h := newHost(p, rec, "L", store, func(sym string, n int) int {
+		i := hpick(pseed, acc, call, n)
+		call++
+		if i < 0 {
+			i = -i
+		}
+		return i
+	})
+	en := h.withOpts(engine.NewEngine(h.cfg, h.rs).WithPersister(persist.NewPersister(store)))
+	saved := curSess
+	curSess = nil
+	defer func() { curSess = saved }()
+	obs := []obsRec{}
+	for _, in := range inputs {
+		call = 0
+		var o obsRec
+		pan := false
+		func() {
+			defer func() {
+				if r := recover(); r != nil {
+					pan = true
+					o.Err = true
+				}
+			}()
+			cont, err := en.Exec(ctx, []byte(in))
+			o.Cont, o.Err = cont, err != nil
+			// (Flush is asked whatever Exec said, as the recorder of the other modes does)
+			w := bytes.NewBuffer(nil)
+			_, ferr := en.Flush(ctx, w)
+			o.Ferr = ferr != nil
+			o.Out = enc(w.String())
+		}()
+		if inputClass(in) == "ok" {
+			obs = append(obs, o)
+			acc++
+			if pan || !o.Cont || o.Err {
+				break
+			}
+		} else if pan {
+			break
+		}
+	}
+	func() {
+		defer func() { recover() }()
+		en.Finish(ctx)
+	}()
+	return obs
+}
+
+// vise-kept-case <program.json> <case.json> <trace-out>: replays one kept-engine pair (plain inputs, inputs with the refused ones,
+// store, seed of the external-result schedule)
+func cmdViseKeptCase(args []string) error {
+	p, err := loadProgram(args[0])
+	if err != nil {
+		return err
+	}
+	b, err := os.ReadFile(args[1])
+	if err != nil {
+		return err
+	}
+	var c struct {
+		Inputs []string `json:"inputs"`
+		Extra  []string `json:"extra"`
+		Store  string   `json:"store"`
+		Pseed  string   `json:"pseed"`
+	}
+	if err := json.Unmarshal(b, &c); err != nil {
+		return err
+	}
+	out, err := newNdw(args[2])
+	if err != nil {
+		return err
+	}
+	defer out.close()
+	null, _ := newNdw(os.DevNull)
+	defer null.close()
+	state.MaxLevel = 128
+	p.Engine.First = false
+	delete(p.Syms, "_first")
+	vm.VerifHook = viseHook
+	stats := &viseStats{Pairs: map[string]int{}}
+	var ps int64
+	fmt.Sscan(c.Pseed, &ps)
+	plain, with := make([]string, len(c.Inputs)), make([]string, len(c.Extra))
+	for i, x := range c.Inputs {
+		plain[i] = decIn(x)
+	}
+	for i, x := range c.Extra {
+		with[i] = decIn(x)
+	}
+	sid := p.Name + ".replay"
+	a := serve(p, sid+".L", "L", newStore("mem", sid), plain, ps, null, stats)
+	s3, cleanup3 := newStoreC(c.Store, sid+"k")
+	k := serveKept(p, sid+".K", s3, with, ps, stats, null)
+	cleanup3()
+	out.put(pairEvent{Ev: "pair", Kind: "insert", Sid: sid, Store: c.Store, Inputs: c.Inputs, Extra: c.Extra, A: a, B: k, ModeA: "L", ModeB: "K", Pseed: c.Pseed})
+	summary(map[string]any{"pairs": 1, "events": out.n})
+	return nil
+}
+
+func init() { register("vise-kept-case", cmdViseKeptCase) }
 
 // servePicks is serve() with the external results given explicitly (per request, in call order), as TLC histories do.
 func servePicks(p *Program, sid string, mode string, store dbLike, inputs []string, picks [][]int, out *ndw, stats *viseStats) []obsRec {
